@@ -16,6 +16,8 @@ GROUPS = [
           loops="C03/srec.loops.json", expected_loops=2, checks=CH, timeout=600),
     Group(name="C03/write_wdc", unity="C03/u_wdc.cpp", entry="h_write_wdc", functions=[("write_wdc", "fileio/write_wdc.cpp", "harness+loop-contract"), ("write_int24", "fileio/write_wdc.cpp", "real callee")],
           loops="C03/wdc.loops.json", expected_loops=1, checks=CH[:2], timeout=900, extra_cbmc=["--arrays-uf-always"]),
+    Group(name="C03/write_uf2", unity="C03/u_uf2.cpp", entry="h_write_uf2", functions=[("write_uf2", "fileio/write_uf2.cpp", "harness+loop-contract"), ("uf2_write_block_header", "fileio/write_uf2.cpp", "real callee"), ("uf2_write_block_footer", "fileio/write_uf2.cpp", "real callee"), ("uf2_add_pico_ef", "fileio/write_uf2.cpp", "real callee, loops unwound 256/220"), ("FileIo::write_int32_le", "fileio/FileIo.cpp", "real callee")],
+          loops="C03/uf2.loops.json", expected_loops=3, unwind=258, subst={"MAIN": "1"}, checks=CH[:2], timeout=1200),
 ]
 LEVEL = "proof"
 TRUSTED = ["fprintf/fputs/putc replaced by contracts that accept exactly the writer's format strings and feed a ghost decoder written from the file-format specification; glibc prints %02X of a value < 256 as two hex digits",
